@@ -416,3 +416,83 @@ func Workers() int {
 	}
 	return 16
 }
+
+// CollectRaces turns the race detector's log files (GORACE log_path=$VERIF_RACE_LOG)
+// into violations: one signature per pair of outermost in-repo frames. Reports
+// whose both stacks lie outside github.com/openconfig/gribigo are counted only.
+func (r *Run) CollectRaces() {
+	base := os.Getenv("VERIF_RACE_LOG")
+	if base == "" {
+		return
+	}
+	files, _ := filepath.Glob(base + "*")
+	total, inRepo := 0, 0
+	sigs := map[string]string{}
+	for _, f := range files {
+		b, err := os.ReadFile(f)
+		if err != nil {
+			continue
+		}
+		for _, blk := range strings.Split(string(b), "==================") {
+			if !strings.Contains(blk, "WARNING: DATA RACE") {
+				continue
+			}
+			total++
+			sig := raceSig(blk)
+			if sig == "" {
+				continue
+			}
+			inRepo++
+			if _, ok := sigs[sig]; !ok {
+				sigs[sig] = blk
+			}
+		}
+	}
+	r.Set("race_reports_total", total)
+	r.Set("race_reports_in_repo", inRepo)
+	r.Set("race_report_signatures", len(sigs))
+	for sig, blk := range sigs {
+		if len(blk) > 6000 {
+			blk = blk[:6000]
+		}
+		r.Violation("race", "data-race:"+sig, "the race detector reported a data race in the code under test", map[string]any{"report": strings.Split(blk, "\n")})
+	}
+}
+
+// raceSig extracts, for the two accesses of a report, the innermost frame that
+// belongs to the repository (not the harness), and joins them in sorted order.
+func raceSig(blk string) string {
+	var accs []string
+	sections := strings.Split(blk, "\n\n")
+	for _, s := range sections {
+		s = strings.TrimSpace(s)
+		if !(strings.HasPrefix(s, "Write at") || strings.HasPrefix(s, "Read at") || strings.HasPrefix(s, "Previous write at") || strings.HasPrefix(s, "Previous read at") || strings.HasPrefix(s, "WARNING: DATA RACE")) {
+			continue
+		}
+		for _, l := range strings.Split(s, "\n") {
+			l = strings.TrimSpace(l)
+			if strings.HasPrefix(l, "github.com/openconfig/gribigo/") {
+				fn := strings.TrimPrefix(l, "github.com/openconfig/gribigo/")
+				if i := strings.Index(fn, "("); i > 0 && !strings.HasPrefix(fn[i:], "(*") {
+					fn = fn[:i]
+				} else if j := strings.LastIndex(fn, "("); j > 0 {
+					fn = fn[:j]
+				}
+				accs = append(accs, fn)
+				break
+			}
+		}
+	}
+	if len(accs) == 0 {
+		return ""
+	}
+	sort.Strings(accs)
+	// dedupe
+	out := accs[:1]
+	for _, a := range accs[1:] {
+		if a != out[len(out)-1] {
+			out = append(out, a)
+		}
+	}
+	return strings.Join(out, "~")
+}
